@@ -271,17 +271,36 @@ macro_rules! across_regions {
                 let fill = if vi % 2 == 0 { 0xa5u8 } else { 0x00 };
                 for route in 0..2usize {
                     $ctx.case(true);
-                    mem.write_slice(&[fill; 16], GuestAddress(0x2000)).unwrap();
-                    if route == 0 {
-                        mem.write_obj(w, GuestAddress(0x2000 + off as u64)).unwrap();
+                    // (the fill and the read-back go through the regions' raw pointers, so that only
+                    // the store and the load under test use the library's access path)
+                    let raw = |f: &mut dyn FnMut(*mut u8, usize, usize)| {
+                        use vm_memory::{GuestMemory, GuestMemoryRegion};
+                        let mut at = 0usize;
+                        for r in mem.iter() {
+                            f(r.as_ptr(), at, r.len() as usize);
+                            at += r.len() as usize;
+                        }
+                    };
+                    // SAFETY: inside the regions
+                    raw(&mut |p, _, l| unsafe { std::ptr::write_bytes(p, fill, l) });
+                    let wr = if route == 0 {
+                        mem.write_obj(w, GuestAddress(0x2000 + off as u64)).map_err(|e| format!("{:?}", e))
                     } else {
-                        mem.write_slice(w.as_slice(), GuestAddress(0x2000 + off as u64)).unwrap();
-                    }
+                        mem.write_slice(w.as_slice(), GuestAddress(0x2000 + off as u64)).map_err(|e| format!("{:?}", e))
+                    };
                     let mut got = [0u8; 16];
-                    mem.read_slice(&mut got, GuestAddress(0x2000)).unwrap();
+                    // SAFETY: inside the regions
+                    raw(&mut |p, at, l| unsafe { std::ptr::copy_nonoverlapping(p, got.as_mut_ptr().add(at), l) });
                     let mut expect = [fill; 16];
                     expect[off..off + sz].copy_from_slice(&v.$tobytes());
-                    let back: $W = mem.read_obj(GuestAddress(0x2000 + off as u64)).unwrap();
+                    let rd: Result<$W, String> = mem.read_obj(GuestAddress(0x2000 + off as u64)).map_err(|e| format!("{:?}", e));
+                    let refused: Option<String> = wr.as_ref().err().cloned().or_else(|| rd.as_ref().err().cloned());
+                    if let Some(e) = refused {
+                        let key = format!("C20/{}/wire-format-across-regions", stringify!($W));
+                        $ctx.fail(&key, &format!("value {:#x} at offset {} of regions 5+2+9 bytes (route {}): the access was refused: {}", v, off, route, e), json!({"type": stringify!($W), "value": format!("{:#x}", v), "offset": off, "route": route}));
+                        continue;
+                    }
+                    let back: $W = rd.unwrap();
                     if got != expect || back != w {
                         let key = format!("C20/{}/wire-format-across-regions", stringify!($W));
                         $ctx.fail(&key, &format!("value {:#x} at offset {} of regions 5+2+9 bytes (route {}): memory {:02x?}, expected {:02x?}, read back {:#x}", v, off, route, got, expect, back.to_native()), json!({"type": stringify!($W), "value": format!("{:#x}", v), "offset": off, "route": route}));
